@@ -130,6 +130,14 @@ class FakeWriter:
         self.closed = True
         self.env.log.append(("writer_close", self.cid))
 
+    async def wait_closed(self):
+        # like asyncio.StreamWriter.wait_closed: re-raises the error the transport was lost with
+        if self.fail:
+            raise ConnectionResetError("socket failed")
+
+    def is_closing(self):
+        return self.closed
+
     def get_extra_info(self, *a, **k):
         return None
 
